@@ -187,6 +187,15 @@ def judge_stage1(chk, c, evs, data, dec):
         mres = model.from_dump(res_d)
         if mres['off_grid'] or {k: v['items'] for k, v in mres['cells'].items()} != {k: v['items'] for k, v in mfull['cells'].items()}:
             chk.violation('C17/rescale/contents', 'load with target unit %r differs from the native load on the database grid (off-grid: %d)' % (u, mres['off_grid']), rp)
+        # paths keep the same physical tolerance (default: one database unit) whatever unit they are loaded in
+        for a, bcell in zip(full['cells'], res_d['cells']):
+            for pa, pb in zip(a['fpaths'], bcell['fpaths']):
+                want_tol = pa['tolerance'] * full['unit'] / u
+                if abs(pb['tolerance'] - want_tol) > 1e-9 * want_tol:
+                    chk.violation('C17/rescale/path-tolerance', 'a path loaded natively has tolerance %r (unit %r); loaded with unit %r it has %r, expected %r' % (
+                        pa['tolerance'], full['unit'], u, pb['tolerance'], want_tol), rp)
+                    break
+                chk.cov('rescaled_path_tolerances')
         # one explicit coordinate: native * unit_native/u
         for a, bcell in zip(full['cells'], res_d['cells']):
             for pa, pb in zip(a['polys'], bcell['polys']):
